@@ -2,12 +2,19 @@ PROP = dict(
     id="C24",
     engines=["c24"],
     go_tags=["c24"],
-    extract_files={"MM/Gen/C24.lean": {"cmd": ["go", "run", "{VERIF}/tools/c24_extract.go", "internal/health/server"]}},
+    extract_files={
+        "MM/Gen/C24.lean": {"cmd": ["go", "run", "{VERIF}/tools/c24_extract.go", "internal/health/server"]},
+        "MM/Gen/C24Tok.lean": {"cmd": ["go", "run", "{VERIF}/tools/c24_tokencache.go", "internal/health/server"]},
+        "MM/Gen/LockC24.lean": {"cmd": ["go", "run", "{VERIF}/tools/lockshape.go", "LockC24", "{REPO}/internal/health/server.go",
+                                          "Server.validateToken", "tokenCacheMu", "cachedTokenSHA,tokenCacheValid"]},
+    },
     lean_modules=["MM.Props.C24"],
     theorems=[
         "MM.C24.C24_401",
         "MM.C24.C24_exempt_set",
         "MM.C24.C24_exempt_exact",
+        "MM.C24.C24_cache_after_bcrypt",
+        "MM.C24.C24_cache_locked",
         "MM.C24.C24_disabled_no_action",
         "MM.C24.C24_disabled_404",
         "MM.C24.exempt_table",
@@ -22,7 +29,8 @@ PROP = dict(
          "segments, trailing slash, case flips, exempt-prefix/../protected combinations, %00, ';x') x token presentation (Bearer header "
          "right/wrong/empty/lower-case/double-space/trailing-space, Basic, bare token, ?token= right/wrong/empty, both); each request is "
          "served by the real health.Server handler under httptest with recording providers and by the Lean model; observed: "
-         "Request.Pattern (which registration ran, '-' = mux never reached), status class, provider calls; non-trivial = the mux was reached",
+         "Request.Pattern (which registration ran, '-' = mux never reached), status class, provider calls; one `race` case: goroutines present the same "
+         "wrong token simultaneously against a bcrypt cost-10 hash, every answer must be 401; non-trivial = the mux was reached",
     nontrivial=lambda op, out: not out.startswith("pat=- st=401"),
     trusted_base=[
         "net/http URL parsing and ServeMux (Go 1.22+ routing) are MODELLED for the pattern forms registered in NewServer (literal segments, exact or "
@@ -89,3 +97,13 @@ def extra(c):
             c.violate(what, {"engine": "c24", "origin": "props/C24.py extra", "ops": [op], "impl_outputs": [out]}, True)
             return
     c.oblige("direct-probes-401-and-disabled-404", "tie", True, "%d requests" % len(ops))
+    # concurrent presentations of the same wrong token (the token cache must never hold an unverified entry);
+    # run harder when the ordering / locking tie of validateToken is broken, to give the violation a concrete outcome
+    broken = any((not o["ok"]) and ("C24Tok" in o["name"] or "LockC24" in o["name"] or "cache" in o["name"]) for o in c.obligations) or not getattr(c, "lake_ok", True)
+    race = ["race 12 8"] if broken else ["race 8 2"]
+    out = c.go_run("c24", race, timeout=300)
+    if out and out[0] != "race ok":
+        c.violate("requests with an invalid token were served while another request with the same token was being verified",
+                  {"engine": "c24", "origin": "props/C24.py extra", "ops": race, "impl_outputs": out}, True)
+    else:
+        c.oblige("concurrent-wrong-token-401", "tie", True, race[0])
